@@ -619,6 +619,10 @@ class MinMaxAggregator:
             else:
                 rest_cond.append(cond)
         assert oldmax is not None
+        # the weight has to be the min/max result itself
+        result_arg = oldmax.atom.symbol.arguments[minmaxpred[2]]
+        if result_arg.ast_type != ASTType.Variable or result_arg.name != varname:
+            return [stm]
 
         # check if all Variables from old predicate are used in the tuple identifier
         # to make a unique semantics
@@ -702,6 +706,11 @@ class MinMaxAggregator:
 
         else:
             log.info(f"Cannot optimize {loc2str(term_tuple[0].location)} as the weight is not simple enough.")
+            return [elem]
+
+        # the weight has to be the min/max result itself
+        result_arg = old_max.atom.symbol.arguments[minmaxpred[2]]
+        if result_arg.ast_type != ASTType.Variable or result_arg.name != varname:
             return [elem]
 
         # check if all Variables from old predicate are used in the tuple identifier
